@@ -917,8 +917,17 @@ Definition protocol_ok : bool :=
       && str_in "needsBuilding" rest
       && str_in "moveOutputs" (after_call "build" rest)
       && str_in "calculateAndCheckRuleHash" (after_call "moveOutputs" rest)
+      (* the shared cache: looked at under the lock after needsBuilding and before the command runs (End
+         with a hit), filled after the record is written (End after a run) *)
+      && str_in "retrieveArtifacts" (after_call "needsBuilding" rest)
+      && str_in "build" (after_call "retrieveArtifacts" rest)
+      && str_in "storeInCache" (after_call "calculateAndCheckRuleHash" (after_call "moveOutputs" rest))
   | _ => false
   end
+  (* filegroupBuilder.Build: the in-process mutex is its only guard (no file lock of its own), the output
+     is compared, then removed, then re-created - not replaced atomically (Model/C31.v SharedDir) *)
+  && list_eqb String.eqb LockProtocol.filegroup_build_calls
+       ["Lock"; "defer Unlock"; "isSameFileContent"; "RemoveAll"; "EnsureDir"; "RecursiveCopyOrLinkFile"]
   && String.eqb LockProtocol.target_lock_arg "target.BuildLockFile()"
   && String.eqb LockProtocol.target_lock_file "target.TmpDir() + lockFileSuffix"
   && String.eqb LockProtocol.target_lock_mode "syscall.LOCK_EX"
@@ -939,3 +948,65 @@ Proof.
   - destruct Hd.
   - destruct Hd as [<-|[]]. exists ex_a. split; [left; reflexivity|reflexivity].
 Qed.
+
+Lemma cache_trusted_empty key H act r : cache_trusted key H act r (Some (empty_cache key)).
+Proof. intros t k v _ Hs. discriminate. Qed.
+
+(* the shared cache at work: a first build of a and b with an empty cache, plz-out wiped, then two
+   processes building both again under the scheduler of the correspondence check *)
+Definition ex_warm : cstate :=
+  cdrive [] 20 (cinit_c (empty_store ckey) (Some (empty_cache ckey)) [ex_repo]).
+Definition ex_cached : cstate :=
+  cdrive [3%N; 1%N; 4%N; 1%N; 5%N] 40 (cinit_c (empty_store ckey) (st_cache ckey ex_warm) [ex_repo; ex_repo]).
+
+Lemma ex_cache_nonvacuous :
+  finished ckey ex_cached = true /\ all_ok ckey ex_cached = true
+  /\ sval ckey (st_store ckey ex_cached) (s "//p:b") = Some [(s "b.out", s "x" ++ nl)]
+  /\ i_ran (st_inv ckey ex_cached 0) = [] /\ i_ran (st_inv ckey ex_cached 1) = []
+  /\ i_ran (st_inv ckey ex_warm 0) = [s "//p:b"; s "//p:a"].
+Proof. vm_compute. repeat split; reflexivity. Qed.
+
+(* ------------------------------------------------------------------------------------------ *)
+(* two targets writing the same path: the path-level model of two directory filegroups in two processes
+   (Model/C31.v, SharedDir).  n = 1 file, the output directory exists from an earlier build with old content.
+
+   dw_silent: process 0 removes the old directory (check, snap, rm, end of names, rmdir); process 1 checks
+   now - nothing there, so it will replace; process 0 links the file and is done with its filegroup;
+   process 1 reads the names (the file process 0 just linked) and unlinks it; process 0's genrule reads
+   the directory: EMPTY.  Process 1 goes on (rmdir, link, read) and sees the complete directory.  Both
+   processes succeed; the output of process 0's genrule was computed from an empty directory. *)
+Definition dw_silent : list bool :=
+  [false; false; false; false; false; true; false; false; true; true; false; true; true; true; true; true].
+Lemma dir_silent_witness :
+  let st := drun false 1 dw_silent (dinit 1 true) in
+  dfinished st = true /\ d_p0 st = PDone (Some []) /\ d_p1 st = PDone (Some (complete 1)) /\ dsafe 1 st = false.
+Proof. vm_compute. repeat split; reflexivity. Qed.
+
+(* dw_fail: process 0 has emptied the directory; process 1 checks, reads the (no) names; process 0 removes
+   the directory, links the file, its genrule reads the complete directory; process 1 now removes the
+   directory itself: not empty - its build of the filegroup FAILS ("unlinkat ...: directory not empty") *)
+Definition dw_fail : list bool :=
+  [false; false; false; false; true; true; false; false; false; false; true; true].
+Lemma dir_fail_witness :
+  let st := drun false 1 dw_fail (dinit 1 true) in
+  d_p0 st = PDone (Some (complete 1)) /\ d_p1 st = PFail.
+Proof. vm_compute. split; reflexivity. Qed.
+
+(* the control: with ONE lock (both processes build the same filegroup) the exhaustive exploration of all
+   interleavings finds nothing, from a stale and from an empty plz-out (n = 2, 3: a computation, not a
+   theorem for all n); without it it does, also from an empty plz-out *)
+Lemma dir_same_lock_explored :
+  dexplore true 2 24 (dinit 2 true) = true /\ dexplore true 2 24 (dinit 2 false) = true
+  /\ dexplore true 3 32 (dinit 3 true) = true /\ dexplore true 3 32 (dinit 3 false) = true
+  /\ dexplore false 2 24 (dinit 2 true) = false /\ dexplore false 2 24 (dinit 2 false) = false.
+Proof. vm_compute. repeat split; reflexivity. Qed.
+
+(* the classifier: the repository of the examples has no shared path; two filegroups of one package with
+   a common source file have *)
+Definition ex_fg (label : str) : target :=
+  mkT label KFilegroup [SFile (s "a.txt") (s "x")] [s "a.txt"].
+Lemma ex_classes :
+  shared_output_class ex_repo = None
+  /\ shared_output_class [ex_fg (s "//p:fga"); ex_a; ex_fg (s "//p:fgb")] = Some (s "two-targets-write-the-same-output-path")
+  /\ shared_output_class [ex_fg (s "//p:fga"); ex_fg (s "//q:fgb")] = None.
+Proof. vm_compute. repeat split; reflexivity. Qed.
